@@ -326,9 +326,10 @@ Proof.
   rewrite (IH (S k) false) by lia. reflexivity.
 Qed.
 
-(* the condition on one group: no tens digit 2..9 with a units digit 0; nothing in the group of 10^18 *)
+(* the condition on one group: no tens digit 2..9 with a units digit 0 (the scale index k plays no part since
+   cardinalTriples[6] is spelled quintillion) *)
 Definition tok (k : nat) (t : N) : bool :=
-  ((t mod 100 <? 20)%N || negb (t mod 10 =? 0)%N) && (negb (Nat.eqb k 6) || (t =? 0)%N).
+  (t mod 100 <? 20)%N || negb (t mod 10 =? 0)%N.
 Fixpoint gok_list (k : nat) (ts : list N) : bool :=
   match ts with [] => true | t :: ts' => tok k t && gok_list (S k) ts' end.
 (* the condition on the lowest group for ordinals: it ends in 01..19 or in a digit that is not 0 *)
@@ -373,14 +374,14 @@ Qed.
 
 (* ---- the static predicate of Proofs.v (the domain of the theorem) ----------------------------------------- *)
 (* where the loop of dirR, with the tables as they stand, writes the defined text: no group of three digits has a
-   tens digit 2..9 with a units digit 0, the group of 10^18 is zero (quantillion), the number is below 10^66; and for
+   tens digit 2..9 with a units digit 0, the number is below 10^66; and for
    ordinals the last two digits are 01..19 or the last digit is not 0 *)
 Fixpoint groups_ok (fuel : nat) (n : N) (k : nat) : bool :=
   match fuel with
   | O => true
   | S f => if (n =? 0)%N then true
            else let t := (n mod 1000)%N in
-                ((t mod 100 <? 20)%N || negb (t mod 10 =? 0)%N) && (negb (Nat.eqb k 6) || (t =? 0)%N) &&
+                ((t mod 100 <? 20)%N || negb (t mod 10 =? 0)%N) &&
                 groups_ok f (n / 1000)%N (S k)
   end.
 Definition english_ok (ordinal : bool) (n : N) : bool :=
@@ -559,14 +560,14 @@ Proof.
 Qed.
 
 (* three more finite checks over the tables: the words of the loop have no blank; a group outside `tok` has a word that
-   is not in the vocabulary of the definition (the empty word, "quantillion"); where the ordinal condition fails on a group
+   is not in the vocabulary of the definition (the empty word); where the ordinal condition fails on a group
    inside `tok` (it ends in 00) the ordinal tables are not used *)
 Definition chkN (T : tables) : bool :=
   forallb (fun k => forallb (fun j => forallb no_space (gw_rev T k false (N.of_nat j)) && forallb no_space (gw_rev T k true (N.of_nat j)))
                             (seq 0 1000)) (seq 0 22).
-Definition badw (T : tables) (w : text) : bool := text_eqb w [] || text_eqb w (tnth (t_triples T) 6).
+Definition badw (T : tables) (w : text) : bool := text_eqb w [].
 Definition chkB (T : tables) : bool :=
-  negb (inv []) && negb (inv (tnth (t_triples T) 6)) &&
+  negb (inv []) &&
   forallb (fun k => forallb (fun j => if tok k (N.of_nat j) then true
                                       else existsb (badw T) (gw_rev T k false (N.of_nat j)) &&
                                            existsb (badw T) (gw_rev T k true (N.of_nat j)))
@@ -585,14 +586,14 @@ Lemma chkB_fact : forall T, chkB T = true -> forall k t ord, k < 22 -> (t < 1000
   existsb (fun w => negb (inv w)) (gw_rev T k ord t) = true.
 Proof.
   intros T H k t ord Hk Ht Hok. unfold chkB in H.
-  apply andb_true_iff in H. destruct H as [H0 H]. apply andb_true_iff in H0. destruct H0 as [H0 H6].
+  apply andb_true_iff in H. destruct H as [H0 H].
   rewrite forallb_forall in H.
   specialize (H k ltac:(apply in_seq; lia)). rewrite forallb_forall in H.
   specialize (H (N.to_nat t) ltac:(apply in_seq; lia)). rewrite N2Nat.id, Hok in H.
   apply andb_true_iff in H.
   assert (G : existsb (badw T) (gw_rev T k ord t) = true) by (destruct H; destruct ord; assumption).
   apply existsb_exists in G. destruct G as [w [Hw Hb]]. apply existsb_exists. exists w. split; [exact Hw|].
-  unfold badw in Hb. apply orb_true_iff in Hb. destruct Hb as [Hb | Hb]; apply text_eqb_eq in Hb; subst w; assumption.
+  unfold badw in Hb. apply text_eqb_eq in Hb. subst w. assumption.
 Qed.
 Lemma chkD_fact : forall T, chkD T = true -> forall t, (t < 1000)%N -> tok 0 t = true -> ordt t = false ->
   gw_rev T 0 true t = gw_rev T 0 false t.
